@@ -64,10 +64,12 @@ class World:
         k = 0
         while src._socket_writer is not None and src._socket_writer.q and (n is None or k < n):
             raw = src._socket_writer.q.pop(0)
+            k += 1
+            if dst._connection_state <= CS.DISCONNECTED_BROKEN_CONN:
+                continue  # the reader task of a disconnected endpoint reads nothing
             msg, used, rawm = dst._codec.decode(raw)
             assert msg is not None, "harness: frame written by an endpoint does not decode"
             run(dst._process_message(msg, rawm))
-            k += 1
         return k
 
     def quiesce(self, first="A"):
@@ -194,6 +196,85 @@ def h_breaks(I, nbreaks, maxsend, recovery_break, fixed=None, rounds=3):
     return [w.A._session.next_num_in, w.A._session.next_num_out, len(w.A.app), len(w.B.app)]
 
 
+class FailingPipe(Pipe):
+    """Transport that is lost while the endpoint is writing: from the k-th drain() on, drain raises
+    the way asyncio's StreamWriter.drain does on a reset connection; later writes go nowhere."""
+
+    def __init__(self, fail_at):
+        super().__init__()
+        self.fail_at, self.ndrain, self.failed = fail_at, 0, False
+
+    def write(self, data):
+        if self.failed:
+            self.frames.append(data)
+        else:
+            super().write(data)
+
+    async def drain(self):
+        self.ndrain += 1
+        if self.fail_at is not None and self.ndrain >= self.fail_at:
+            self.failed = True
+            raise ConnectionResetError("connection lost")
+
+
+def h_break_in_replay(I, na, nb):
+    """The connection is lost (drain raises) at a solver-chosen frame of the recovery traffic -
+    the Logon, a ResendRequest, a retransmitted message or a gap fill - on a solver-chosen side.
+    What was written before reaches the peer or not (symbolic).  Then both ends see the loss
+    (disconnect, as the reader task does), reconnect + Logon + run to quiescence."""
+    w = UWorld(I)
+    w.logon(0)
+    for _ in range(na):
+        w.send("A")
+    for _ in range(nb):
+        w.send("B")
+    w.deliver(w.A, w.B, I.choice("delivered_AB", na + 1))
+    w.deliver(w.B, w.A, I.choice("delivered_BA", nb + 1))
+    w.brk()
+    w.connect()
+    side = I.choice("failing_side", 2)
+    fail_at = 1 + I.choice("failing_drain", 5)
+    cut = I.choice("traffic_after_the_failure", 2)  # 0: nothing more is delivered, 1: frames in flight still arrive
+    order = I.choice("drain_order", 2)
+
+    def recover_with_failure():
+        c = w.A if side == 0 else w.B
+        fp = c._socket_writer = FailingPipe(fail_at)
+        try:
+            run(w.A.send_msg(FIXMessage(FMsg.LOGON, {98: 0, 108: 30})))
+        except OSError:
+            pass  # reported to the sending application
+        pairs = ((w.A, w.B), (w.B, w.A)) if order == 0 else ((w.B, w.A), (w.A, w.B))
+        for _ in range(60):
+            n = 0
+            for src, dst in pairs:
+                while src._socket_writer is not None and src._socket_writer.q and not (fp.failed and cut == 0):
+                    n += World.deliver(w, src, dst, 1)
+            if n == 0:
+                break
+        else:
+            raise AssertionError("no quiescence")
+        if not fp.failed:
+            fp.fail_at = None
+            return "completed"
+        # the failing side logged the transport error of its own write (expected); both ends now
+        # see the loss
+        for x in (w.A, w.B):
+            x.log.exceptions[:] = [e for e in x.log.exceptions if not e.startswith("ConnectionResetError")]
+        World.brk(w)
+        return "failed"
+    outcome = I.untraced(recover_with_failure)
+    if outcome == "failed":
+        I.goal("transport-failed-mid-recovery")
+        w.logon(I.choice("recovery_order", 3))
+    w.send("A")
+    w.send("B")
+    w.quiesce()
+    w.check(I)
+    I.goal("recovered")
+    return [outcome, len(w.A.app), len(w.B.app)]
+
+
 class ErrReader:
     """Reader that fails the way a broken transport does."""
 
@@ -258,6 +339,11 @@ def cells(tier):
                             dict(breaks="1 + one more in the middle of the recovery traffic", sends=f"A {na}, B {nb}",
                                  recovery_prefixes=f"{2 if quick else 3} rounds, 0..2 frames per direction each (symbolic)"),
                             goals=["recovered", "break-during-recovery"], regions=["c07.loss_during_recovery"], budget_s=3000))
+    for na, nb in (((2, 0), (1, 1)) if quick else ((2, 0), (1, 1), (3, 0), (2, 1), (2, 2), (0, 3))):
+        out.append(Cell(f"break-in-replay/a{na}b{nb}", (lambda I, na=na, nb=nb: h_break_in_replay(I, na, nb)),
+                        dict(sends=f"A {na}, B {nb}", delivered_before_break="symbolic prefix per direction",
+                             failure="drain() of the 1st..5th frame written during recovery raises ConnectionResetError, on A or B (symbolic); frames already written reach the peer or not (symbolic)"),
+                        goals=["recovered", "transport-failed-mid-recovery"], budget_s=3000))
     out.append(Cell("read-error", h_read_error, dict(error_kinds="EOF / ConnectionResetError / OSError per end", delivered="0..1"), goals=["recovered"]))
     return out
 
@@ -266,4 +352,4 @@ ASSUMPTIONS = ["frames in flight are delivered as prefixes per direction (TCP); 
                "the same connection objects reconnect (restart with new objects is C09's subject); journals are FakeSQLite files that outlive the connections",
                "macro-step schedules: within a phase sends happen before deliveries; recovery is drained A-first, B-first or alternating (arbitrary per-frame interleavings are outside the claim)"]
 STUBS = ["transport -> in-memory pipes", "sqlite3 -> FakeSQLite", "clock fixed", "asyncio.sleep -> trampoline"]
-OUTSIDE = ["more than two breaks", "more than 2 sends per side per phase", "arbitrary per-frame interleavings, long random walks", "transport errors on write"]
+OUTSIDE = ["more than two breaks", "more than 2 sends per side per phase", "arbitrary per-frame interleavings, long random walks", "transport errors raised by write() itself (asyncio reports them from drain())"]
